@@ -48,7 +48,7 @@ func (o goMapObject) toValue(rt *runtime, value Value) reflect.Value {
 		}
 		return converted
 	}
-	reflectValue, err := value.toReflectValue(o.valueType)
+	reflectValue, err := value.toElementValue(o.valueType)
 	if err != nil {
 		panicConversionError(err)
 	}
